@@ -85,3 +85,7 @@ def register_all(reg):
     reg("C22", "thrx", "model_checking", "stateless deviation-bounded systematic scheduling of the real threaded runtime (cooperative scheduler, virtual time) x instance/distribution enumeration",
         "For every (small DCOP x agent set x distribution incl. oneagent/adhoc/gh_cgdp outputs) the real run_local_thread_dcop / deploy_computations / run(timeout) sequence is executed under the fair default schedule and every schedule with <=1 deviation (thorough: <=2 on 2-variable instances); each execution must end OK before the timeout on a complete, brute-force-optimal assignment whose reported cost/violation match the reference accounting.",
         THRX_NOTE, "DESIGN.md 3 C22")
+
+    reg("C18", "thrx", "model_checking", "stateless deviation-bounded systematic scheduling of real threads (cooperative scheduler) with line-level scheduling points in the messaging code (sys.settrace)",
+        "A real Agent loop thread, Messaging and InProcessCommunicationLayer with concurrent poster threads (local/remote routes, priority mixes, registration after the posts, post right before clean_shutdown): the default schedule and every schedule with <=2 (small variants) / <=1 (large variants) deviations (thorough: 3 / 2) is executed, preemption possible at every line of post_msg/next_msg/_on_computation_registration/_run/clean_shutdown; exactly-once, per-sender FIFO, priority and shutdown-drain oracles on every execution.",
+        THRX_NOTE + " Line-level points only inside the traced messaging functions.", "DESIGN.md 3 C18")
